@@ -89,6 +89,25 @@ class CHECK(Check):
                     pre = "9" * start if ci % 2 else "-1"[:start]
                     post = rng.choice(["", "7", " 1", "e5", "\n"])
                     yield {"fd": fd, "lines": [pre + s + post], "bytes": False}
+        # format lists whose formats parse the SAME span differently: the first declared format that parses decides, whatever
+        # the field object read before (2-4 reads through one field; spans only a later format parses, then ambiguous ones)
+        amb = [["%d/%m/%Y", "%m/%d/%Y"], ["%Y-%m-%d", "%Y-%d-%m", "%d-%m-%Y"], ["%m%d", "%d%m"], ["%H:%M", "%M:%H"], ["%m/%Y", "%Y/%m", "%d/%m"]]
+        for _ in range(400 if tier == "quick" else 8000):
+            fmts = rng.choice(amb)
+            if rng.random() < 0.3:
+                fmts = list(reversed(fmts))
+            width = max(fl.date_width(f) for f in fmts)
+            fd = {"k": "date", "size": width + rng.choice([0, 0, 2]), "start": rng.randint(0, 3), "formats": fmts, "aslist": True}
+            lines = []
+            for _ in range(rng.randint(2, 4)):
+                d = datetime.datetime(rng.choice([1999, 2020, 2021]), rng.randint(1, 12), rng.choice([1, 2, 3, 5, 12, 13, 25, 28]),
+                                      rng.choice([1, 5, 11, 12, 13, 23]), rng.choice([1, 5, 12, 13, 30, 59]))
+                body = d.strftime(rng.choice(fmts)) if rng.random() < 0.9 else rng.choice(["", "xx", "99/99/9999"])
+                lines.append("#" * fd["start"] + body.ljust(fd["size"]) + rng.choice(["", "tail"]))
+            if rng.random() < 0.3:
+                yield {"fd": fd, "lines": [[ord(c) for c in l] for l in lines], "bytes": True}
+            else:
+                yield {"fd": fd, "lines": lines, "bytes": False}
         nr = 4000 if tier == "quick" else 100000
         for _ in range(nr):
             fd = fl.gen_field(rng, start=rng.randint(0, 4))
